@@ -718,7 +718,7 @@ Proof. intros. unfold write_many_lf. apply write_many_wf. auto. Qed.
 
 Lemma step_wf : forall d o, wf_dir d -> wf_dir (step d o).
 Proof.
-  intros d [c ts lens|c lens|c ts lens|m ts sz|] H; simpl; auto;
+  intros d [c ts lens|c lens|c ts lens|m ts sz| |c] H; simpl; auto;
     [apply write_many_wf | apply write_many_rf_wf | apply write_many_lf_wf | apply write_all_wf]; auto.
 Qed.
 
@@ -964,6 +964,7 @@ Definition compat (c : logcfg) (o : op) : Prop :=
       c' = c \/ (lmatch c' (cur_name c') = true /\ incomparable (lname c) (lname c') = true)
   | ODump _ _ _ => incomparable (lname c) Consts.rules_dump_search_prefix = true
   | ODumpLF => True
+  | ORestart _ => True
   end.
 
 Definition Inv (c : logcfg) (d : dir) : Prop := LInv c d /\ SInv c d.
@@ -972,7 +973,7 @@ Lemma foreign_frame : forall c o d,
   compat c o -> (match o with OWrite c' _ _ | OWriteRF c' _ | OWriteLF c' _ _ => c' <> c | _ => True end) ->
   lfiles c (step d o) = lfiles c d.
 Proof.
-  intros c [c' ts lens|c' lens|c' ts lens|m ts sz|] d Hc Hne; simpl in *; auto.
+  intros c [c' ts lens|c' lens|c' ts lens|m ts sz| |c'] d Hc Hne; simpl in *; auto.
   - destruct Hc as [->|[Hw Hi]]; [contradiction|].
     unfold lfiles. apply (write_many_frame (lmatch c)); auto.
     intros n Hn. unfold lmatch in *. rewrite incomparable_sym in Hi.
@@ -1017,7 +1018,7 @@ Proof.
   { intros. destruct I as [L S]. split.
     - apply write_many_inv; auto.
     - apply SInv_iff. apply P_write_many; auto. apply L. apply SInv_iff. auto. }
-  destruct o as [c' ts lens|c' lens|c' ts lens|m ts sz|].
+  destruct o as [c' ts lens|c' lens|c' ts lens|m ts sz| |c'].
   - destruct (cfg_eq_dec c' c) as [->|Hne]; [apply Own|].
     apply (frame_inv c d); auto.
     + apply step_wf. apply I.
@@ -1034,6 +1035,7 @@ Proof.
   - apply (frame_inv c d); auto.
     + apply step_wf. apply I.
     + apply foreign_frame; simpl; auto.
+  - simpl. auto.
   - simpl. auto.
 Qed.
 
@@ -1223,7 +1225,7 @@ Qed.
 Definition dcompat (maxc : N) (o : op) : Prop :=
   match o with
   | ODump m _ _ => m = maxc
-  | ODumpLF => True
+  | ODumpLF | ORestart _ => True
   | OWrite c' _ _ | OWriteRF c' _ | OWriteLF c' _ _ =>
       lmatch c' (cur_name c') = true /\ incomparable (lname c') Consts.rules_dump_search_prefix = true
   end.
@@ -1232,7 +1234,7 @@ Definition DInv (maxc : N) (d : dir) : Prop := wf_dir d /\ dcount d <= maxc.
 
 Lemma step_dinv : forall maxc o d, 1 <= maxc -> dcompat maxc o -> DInv maxc d -> DInv maxc (step d o).
 Proof.
-  intros maxc [c' ts lens|c' lens|c' ts lens|m ts sz|] d H1 Hc [WF Hd]; simpl in *; [| | | |split; auto].
+  intros maxc [c' ts lens|c' lens|c' ts lens|m ts sz| |c'] d H1 Hc [WF Hd]; simpl in *; [| | | |split; auto|split; auto].
   - destruct Hc as [Hw Hi]. split; [apply write_many_wf; auto|].
     unfold dcount in *. rewrite cnt_entries in *.
     rewrite (write_many_frame is_dump); auto.
@@ -1533,3 +1535,105 @@ Proof. reflexivity. Qed.
 
 Lemma configured_cap_spec : forall o n, o = Some n -> configured_cap o = n.
 Proof. intros o n ->. reflexivity. Qed.
+
+(* ------------------------------------------------------------------ the agent's two loggers, with restarts *)
+(* operations of the running agent on its log directory: writes (also under a failing rename / a
+   failing listing) and restarts of either logger, rule dumps *)
+Definition agent_op (o : op) : Prop :=
+  match o with
+  | OWrite c _ _ | OWriteRF c _ | OWriteLF c _ _ | ORestart c => c = agent_logger \/ c = connection_logger
+  | ODump _ _ _ | ODumpLF => True
+  end.
+
+Lemma agent_op_compat : forall o, agent_op o -> compat agent_logger o /\ compat connection_logger o.
+Proof.
+  destruct agent_loggers_ok as [[Wa _] [[Wc _] [I1 [I2 [I3 _]]]]].
+  assert (I1' : incomparable (lname connection_logger) (lname agent_logger) = true)
+    by (rewrite incomparable_sym; exact I1).
+  intros [c ts lens|c lens|c ts lens|m ts sz| |c] H; simpl in *; auto;
+    destruct H as [->| ->]; split; auto.
+Qed.
+
+Lemma agent_two_loggers_history : forall ops d0,
+  Inv agent_logger d0 -> Inv connection_logger d0 -> Forall agent_op ops ->
+  Forall (fun d => lcount agent_logger d <= lmax_count agent_logger /\
+                   lcount connection_logger d <= lmax_count connection_logger /\
+                   (forall e, In e (lfiles agent_logger d) \/ In e (lfiles connection_logger d) ->
+                              esize e <= Consts.max_log_file_size + elast e))
+         (trace d0 ops).
+Proof.
+  destruct agent_loggers_ok as [Wa [Wc _]].
+  induction ops; intros d0 Ia Ic H; simpl; constructor; inversion H; subst;
+    destruct (agent_op_compat a H2) as [Ca Cc];
+    pose proof (step_inv agent_logger a d0 Wa Ca Ia) as Ia';
+    pose proof (step_inv connection_logger a d0 Wc Cc Ic) as Ic'.
+  - split; [apply LInv_count, Ia'|]. split; [apply LInv_count, Ic'|].
+    intros e [He|He].
+    + destruct Ia' as [_ S]. unfold SInv in S. rewrite Forall_forall in S.
+      apply (sz_ok_bound (lmax_size agent_logger)). auto.
+    + destruct Ic' as [_ S]. unfold SInv in S. rewrite Forall_forall in S.
+      apply (sz_ok_bound (lmax_size connection_logger)). auto.
+  - apply IHops; auto.
+Qed.
+
+Lemma agent_from_empty : Inv agent_logger [] /\ Inv connection_logger [].
+Proof. destruct agent_loggers_ok as [[_ Wa] [[_ Wc] _]]. split; apply Inv_empty; auto. Qed.
+
+(* a restart changes nothing, whatever the directory *)
+Lemma restart_noop : forall c d, step d (ORestart c) = d.
+Proof. reflexivity. Qed.
+
+(* ------------------------------------------------------------------ name order = age order *)
+Lemma ltb_app_prefix : forall p a b, bytes_ltb (p ++ a) (p ++ b) = bytes_ltb a b.
+Proof.
+  induction p; simpl; auto. intros. rewrite N.ltb_irrefl, N.eqb_refl. simpl. auto.
+Qed.
+
+Lemma ltb_app_suffix : forall a b s, length a = length b -> bytes_ltb (a ++ s) (b ++ s) = bytes_ltb a b.
+Proof.
+  induction a; destruct b; simpl; intros s H; try discriminate.
+  - apply ltb_irrefl.
+  - rewrite IHa by (inversion H; auto). reflexivity.
+Qed.
+
+(* the name write_all produces is <prefix><stamp><suffix> with the stamp right after the fixed prefix *)
+Lemma dump_name_order : forall t1 t2,
+  length t1 = length t2 ->
+  bytes_ltb (dump_name t1) (dump_name t2) = bytes_ltb (colon_to_dot t1) (colon_to_dot t2).
+Proof.
+  intros. rewrite !dump_name_eq, ltb_app_prefix, ltb_app_suffix; auto.
+  unfold colon_to_dot. rewrite !map_length. auto.
+Qed.
+
+(* oldest first over the AGE order: with fixed-width stamps from a monotone clock, no dump that
+   survives a write_all is older than a dump the write_all removed -- the removed set is an initial
+   segment of the age order *)
+Lemma dumps_oldest_by_age : forall maxc ts sz d tr tk,
+  length tr = length tk ->
+  let d' := write_all maxc ts sz d in
+  In (dump_name tr) (names d) -> ~ In (dump_name tr) (names d') ->
+  In (dump_name tk) (names d') -> dump_name tk <> dump_name ts ->
+  bytes_ltb (colon_to_dot tk) (colon_to_dot tr) = false.
+Proof.
+  intros maxc ts sz d tr tk L d' Hr Nr Hk Kn. rewrite <- dump_name_order by auto.
+  apply (write_all_oldest maxc ts sz d (dump_name tr) (dump_name tk)); auto; apply is_dump_dump_name.
+Qed.
+
+Lemma write_all_with_eq : forall maxc ts sz d, write_all maxc ts sz d = write_all_with (dump_name ts) maxc sz d.
+Proof. reflexivity. Qed.
+
+(* why the stamp must come first: with a tag in front of the stamp (seeded change s1: the modes in
+   force) the same trimming deletes the NEWEST dump after a roll-back and keeps a stale one *)
+Lemma tagged_names_break_oldest_first :
+  exists tag1 tag2 d,
+    let w := fun tag ts d => write_all_with (dump_name_tagged tag ts) 2 7 d in
+    d = w tag2 [52] (w tag2 [51] (w tag1 [50] (w tag1 [49] []))) /\
+    ~ In (dump_name_tagged tag2 [51]) (names d) /\        (* written third: removed *)
+    In (dump_name_tagged tag1 [50]) (names d) /\          (* written second: kept *)
+    bytes_ltb [50] [51] = true.
+Proof.
+  exists [101], [97]. eexists. cbv zeta. split; [reflexivity|]. vm_compute.
+  split; [|split; [|reflexivity]].
+  - intros H. repeat (destruct H as [H|H]; [discriminate|]). contradiction.
+  - auto.
+Qed.
